@@ -5,7 +5,15 @@ proof part    : Props/C03.lean (+ Theory/WignerD, Theory/DirectSum, Theory/Wigne
                 x rotations conjugate to them, 2π-periodicity (so the code's `% 2π` is harmless), orthogonality,
                 D(0)=1, D(g⁻¹)=Dᵀ, parity character p^k, direct sum = ordered block diagonal (exact zeros),
                 D_from_matrix/quaternion/axis_angle as compositions with the C12 model, error branches.
-                NOT proved: D(g1 g2)=D(g1)D(g2) for l ≥ 2 (named hypothesis `WignerDHom`) — carried here.
+                Props/C03Hom.lean (quick + thorough; + Theory/BilSpan, Sound/WignerGram, Cert/W3j/Gram1..7):
+                the homomorphism D(g1 g2)=D(g1)D(g2) (`WignerDHom l`) PROVED for every l ≤ 8 and all real angles by
+                induction on l through the Clebsch–Gordan intertwiner wigner_3j(l,1,l+1) (kernel certificates
+                `w3jCert l 1 (l+1)` = equivariance, `gramCheck l 1 (l+1)` = the contraction is onto); with it
+                compose_angles, 'D factors through SO(3)', 'the four input forms agree', D_from_matrix multiplicative,
+                direct sums multiplicative, all for l ≤ 8.  Props/C03HomExt.lean (thorough only; Gram8..11, Rec8..11):
+                the same for l ≤ 11 (`WignerDHom` up to l = 12).
+                NOT proved: the homomorphism for degrees beyond that range (each further degree needs its two
+                `decide +kernel` certificates); the `_partial` theorems keep `WignerDHom l` as a named hypothesis there.
 correspondence: the real `o3.wigner_D`, `Irrep.D_from_*`, `Irreps.D_from_*`, `direct_sum` against
                 (a) the model composition exp(αX₁)exp(βX₀)exp(γX₁) evaluated in float64 (torch.matrix_exp, scipy expm and an
                     eigen-decomposition) from the EXACT generator tables printed by drivers/C04.lean,
@@ -159,13 +167,35 @@ def run(ctx: Ctx):
     torch.set_num_threads(1)   # tiny matrices: intra-op threading only costs (30× slower on a loaded 16-core box)
 
     # ---- proof obligations -----------------------------------------------------------------------
-    targets = ["E3nnVerif.Props.C03"]
+    # Props.C03Hom: the homomorphism D(g1 g2)=D(g1)D(g2) for l ≤ 8 (default build); Props.C03HomExt continues to l ≤ 11
+    # (WignerDHom up to 12) with certificates that take up to 85 s / 5 GB each: thorough tier only
+    targets = ["E3nnVerif.Props.C03", "E3nnVerif.Props.C03Hom"] + (["E3nnVerif.Props.C03HomExt"] if thorough else [])
     ok, out = ctx.lake_build(targets, timeout=7000)
     ctx.obligation("build:Props.C03", ok, out[-3000:])
+    hom_lmax = 0
     if ok:
-        ctx.audit(["E3nnVerif.Props.C03", "E3nnVerif.Theory.WignerD", "E3nnVerif.Theory.DirectSum",
-                   "E3nnVerif.Theory.WignerDSound", "E3nnVerif.Cert.C03GenY", "E3nnVerif.Cert.C03GenA",
-                   "E3nnVerif.Cert.C03GenB", "E3nnVerif.Cert.C03GenC"])
+        names = ctx.audit(["E3nnVerif.Props.C03", "E3nnVerif.Props.C03Hom"]
+                          + (["E3nnVerif.Props.C03HomExt"] if thorough else [])
+                          + ["E3nnVerif.Theory.WignerD", "E3nnVerif.Theory.DirectSum",
+                             "E3nnVerif.Theory.WignerDSound", "E3nnVerif.Theory.BilSpan", "E3nnVerif.Sound.WignerGram",
+                             "E3nnVerif.Cert.C03GenY", "E3nnVerif.Cert.C03GenA",
+                             "E3nnVerif.Cert.C03GenB", "E3nnVerif.Cert.C03GenC"]
+                          + [f"E3nnVerif.Cert.W3j.Gram{l}" for l in range(1, 12 if thorough else 8)])
+        # the audit must have seen the theorems that discharge `WignerDHom` (a renamed/removed theorem is a failed obligation)
+        want = ["wignerDHom_step", "wignerDHom_le8", "wignerD_compose_le8", "wignerD_factors_through_SO3_le8",
+                "irrepD_from_matrix_angles_le8", "irrepD_forms_agree_le8", "irrepD_mul_le8", "irrepD_from_matrix_mul_le8",
+                "irrepsD_mul_le8", "irrepsD_compose_le8"]
+        if thorough:
+            want += ["wignerDHom_le12", "wignerDHom_le11", "wignerD_compose_le11", "wignerD_factors_through_SO3_le11",
+                     "irrepD_from_matrix_angles_le11", "irrepD_forms_agree_le11", "irrepD_mul_le11",
+                     "irrepD_from_matrix_mul_le11", "irrepsD_mul_le11", "irrepsD_compose_le11"]
+        want += [f"gram_{l}_1_{l + 1}" for l in range(1, 12 if thorough else 8)]
+        short = {n.split(".")[-1] for n in names}
+        missing = [w for w in want if w not in short]
+        ctx.obligation("audit:homomorphism-theorems-present", not missing, "missing from the axiom audit: " + ", ".join(missing))
+        if not missing:
+            hom_lmax = 11 if thorough else 8
+    ctx.notes["homomorphism_proved_up_to_l"] = hom_lmax
 
     ls_all = list(range(12))
     ls = ls_all if thorough else [0, 1, 2, 3, 4, 5, 6, 8, 11]
@@ -665,7 +695,13 @@ def run(ctx: Ctx):
                          "default∈{float64,float32} × args∈{float64,float32}; a case is non-trivial when l>0 resp. more than one block")
     ctx.assumptions += [
         "matrix_exp over ℝ is Mathlib's NormedSpace.exp; torch.matrix_exp's float error is only measured (≤1e-12·l against three independent float64 evaluations of the model)",
-        "D(g1 g2)=D(g1)D(g2) for l≥2 and 'the four input forms give equal matrices' for l≥2 rest on the named unproved lemma WignerDHom / wignerD_factors_through_SO3 (Mathlib has no Lie group–Lie algebra correspondence); carried by the correspondence stream at 1e-10",
+        ("D(g1 g2)=D(g1)D(g2) (WignerDHom) and its corollaries (compose_angles, D factors through SO(3), the four input forms give equal "
+         "matrices, D_from_matrix and direct sums multiplicative) are PROVED for all real angles and every degree l ≤ "
+         + ("11 (WignerDHom itself up to 12; Props/C03Hom.lean + Props/C03HomExt.lean)" if thorough else "8 (Props/C03Hom.lean; l = 9..11 in the thorough tier, Props/C03HomExt.lean)")
+         + " by induction on l through the Clebsch–Gordan intertwiner wigner_3j(l,1,l+1): kernel certificates w3jCert (equivariance) and gramCheck "
+         "(the contraction is onto) for each step; no Lie theory.  Beyond the proved range WignerDHom l stays a named hypothesis of the "
+         "`_partial` theorems.  The correspondence stream (homomorphism via a well-conditioned Euler decomposition and via compose_angles, "
+         "l ≤ 11, 1e-10, both dtypes) still runs for every degree: it ties the proved model to the real wigner_D"),
         "k is modelled as an integer; p**k for non-integer k (NaN for odd p) is outside the model",
         "batching/broadcasting of the real functions is checked on examples only",
         "the float clause is checked against the float64 model at the given (float32/float64) argument values; wigner_D computes in the argument dtype under either default dtype (result dtype = argument dtype); tolerance 1e-10 for float64 arguments, 1.5e-5·(2l+1) for float32 arguments (3× the worst achieved)",
